@@ -171,7 +171,7 @@ type stepSpec struct {
 func runC06(c *report.Ctx) {
 	p := c.P
 	ruleSoleWriter(c)
-	ruleNoTxUnderUpdate(c, 13)
+	ruleNoTxUnderUpdate(c, 8)
 
 	c.Rule("step-table", "each logical step performs all its mutations and its progress marker inside one Update closure", 9)
 	upd := fn(c, pkgDB, "", "Update")
